@@ -39,3 +39,11 @@ Print Assumptions C01_token_consumes.
 Theorem C01_accessors : forall s y, Inv s -> 0 <= y < sH s -> zlen (row_at s y) = sW s.
 Proof. exact row_at_len. Qed.
 Print Assumptions C01_accessors.
+
+(* numeric parameters saturate: whatever digits a CSI carries (also more than fit in 64 bits), every
+   parameter the tokenizer hands on lies in 0 .. 65535 and at most 32 parameters are kept *)
+Theorem C01_csi_params_saturate : forall inp prefix ps f rest,
+  parse_csi inp = PTok (TCsi prefix ps f) rest ->
+  Forall (fun p => 0 <= p <= maxCSIParam) ps /\ zlen ps <= nParamStore.
+Proof. exact csi_params_saturate. Qed.
+Print Assumptions C01_csi_params_saturate.
